@@ -1,3 +1,4 @@
+\* X02 contract, time family: deadlines before / at / after every instant, cancels and ticks in every order
 SPECIFICATION Spec
 CONSTANTS
   MaxNodes = 4
